@@ -1,7 +1,7 @@
 #!/bin/bash
 # usage: confirm_seed.sh <worktree> <seed-dir> <pkg-dir> <demo-run-regex> [extra go test flags]
 # In a scratch worktree: checks that the patch applies, the package builds, its existing tests
-# pass with the patch, the demo fails with the patch and passes without it. Prints a JSON line.
+# (those in the stable baseline) pass with the patch, the demo fails with the patch and passes without it. Prints a JSON line.
 export PATH=/root/go/pkg/mod/golang.org/toolchain@v0.0.1-go1.25.13.linux-amd64/bin:$PATH GOTOOLCHAIN=local GOFLAGS=-mod=mod GOPROXY=off GOSUMDB=off GOMAXPROCS=6
 wt=$1; seed=$2; pkg=$3; run=$4; shift 4; extra="$@"
 cd "$wt" || exit 2
@@ -9,7 +9,9 @@ git checkout -q -- . ; rm -f "$pkg"/zz_demo_seed_test.go
 res() { echo "{\"seed\":\"$(basename $seed)\",\"applies\":$1,\"builds\":$2,\"existing_tests_pass_with_patch\":$3,\"demo_fails_with_patch\":$4,\"demo_passes_without_patch\":$5}"; }
 git apply "$seed/patch.diff" || { res false false false false false; exit 1; }
 go build ./$pkg/ >/dev/null 2>&1 && b=true || b=false
-go test -p 4 -vet=off -count=1 $extra ./$pkg/ >/tmp/confirm_$$.log 2>&1 && t=true || t=false
+modpath=$(cd ./$pkg && go list -f '{{.ImportPath}}' . 2>/dev/null)
+runre=$(python3 /verif/tools/baseline_run_regex.py "$modpath")
+go test -p 4 -vet=off -count=1 $extra -run "$runre" ./$pkg/ >/tmp/confirm_$$.log 2>&1 && t=true || t=false
 cp "$seed/demo_test.go" "$pkg/zz_demo_seed_test.go"
 go test -vet=off -count=1 $extra -run "$run" ./$pkg/ >/tmp/confirm_demo1_$$.log 2>&1 && d1=false || d1=true
 git apply -R "$seed/patch.diff"
